@@ -157,6 +157,8 @@ type World struct {
 	idle             bool
 
 	started        bool
+	procNewCount   int  // sequential families: NewProcessor calls of the current call ...
+	procNewFailAt  int  // ... and which of them fails (-1/0 = none)
 	direct         bool // sequential families: seam calls are served at once, in program order
 	capReason      string
 	bootedInc      int
